@@ -8,6 +8,7 @@ from ..source import Unsupported, AnchorError
 from ..xlate import Interp, Frame, Obj, ListV, DictV, Raised, RankOrder
 from .common import same, show, coeff_vector
 from .rxnfix import get_public
+from .c07b import lossy_fields, NEED_DIGITS, check_cti_directives, check_yaml_plain, PENDING_DEFECTS
 
 OM = 'pmutt.io.omkm'
 Z = '\x00'
@@ -64,6 +65,16 @@ def path_stub(pure):
         I_.files[ob] = I_.seg(a[0]).splitlines()
         return None
     o.opaque_methods['write_text'] = write_text
+
+    def path_open(I_, ob, a, k):
+        # Path.open(mode='r', buffering=-1, encoding=None, errors=None, newline=None) is the built-in open() on the
+        # path: the interpreter's model of open(), the file registered under the path object as for open(path, ...)
+        if len(a) > 1:
+            raise Unsupported('pathlib.Path.open with positional options after the mode')
+        from ..xlate import builtin_call
+        return builtin_call(I_, Frame(I_, I_.repo.module('pmutt'), {}, None, None), 'open', [ob] + list(a), dict(k),
+                            None)
+    o.opaque_methods['open'] = path_open
     o.opaque_methods['__str__'] = lambda I_, ob, a, k: str(pure)
     o.opaque_methods['__fspath__'] = lambda I_, ob, a, k: str(pure)
     for nm_ in set(dir(pathlib.Path)) | set(dir(pathlib.PurePosixPath)):
@@ -97,7 +108,10 @@ def seg_equal(I, a, b):
 
 def numpy_scalar():
     o = Obj('numpy_scalar')
-    o.isa.add('Number')         # registered with numbers.Number, but neither int nor float
+    o.isa.update({'Number', 'generic', 'number'})   # registered with numbers.Number, but neither int nor float
+    # what every NumPy scalar has: the same value as a Python number
+    o.opaque_methods['tolist'] = lambda I_, ob, a, k: I_.D.sym('py<numpy_scalar>')
+    o.opaque_methods['item'] = lambda I_, ob, a, k: I_.D.sym('py<numpy_scalar>')
     return o
 
 
@@ -139,12 +153,18 @@ def assign_yaml(run, repo):
             if kname in ('dictionary', 'boolean', 'string') and unit is not None:
                 continue        # such options never carry a unit in the writers
             # a test on the value itself is followed for a generic non-zero number
-            I = new_interp(repo, order=RankOrder({'v': 1, 'v0': 1, 'v1': 1}, const_ranks=True))
+            I = new_interp(repo, order=RankOrder({'v': 1, 'v0': 1, 'v1': 1, 'py<numpy_scalar>': 1}, const_ranks=True))
             u = units_obj(I, repo)
             val = mk(I)
             opt, path, lab = ('flow_rate', ('inlet_gas',), 'flow_rate') if unit else ('nodes', ('reactor',), 'nodes')
             r, got = written(I, {opt: val, 'units': u}, path, lab)
             key = 'value=%s units=%s' % (kname, 'given' if unit else 'None')
+            if I.dumps and not isinstance(r, Raised) and not (kname.startswith('NumPy') and unit is None and
+                                                              'D1' in PENDING_DEFECTS):
+                # (a NumPy number for an option without unit is handed to the serialiser as it is on the unmodified
+                # tree: DEFECT3_C07.md D1 - that instance is not armed)
+                check_yaml_plain(run, I.dumps[-1], 'DATAFLOW.reactor', 'io.omkm.write_yaml', key + ' plain YAML data',
+                                 m, fn)
             run.check(got is not None or isinstance(r, Raised), 'PATH.assign', 'io.omkm.write_yaml', key,
                       'a supplied %s %s (%s=...) is neither written under its label nor rejected: the option silently '
                       'disappears from the reactor file' % (kname, 'with unit %r' % unit if unit else 'without unit',
@@ -161,7 +181,10 @@ def assign_yaml(run, repo):
                           sample='write_yaml(%s=%r) -> %r' % (opt, val, txt_))
             if got is not None and isinstance(val, Obj) and unit:
                 sg = I.seg(got) if isinstance(got, (str, SegStr)) else None
-                ok = sg is not None and [s_.value for s_ in sg.fields()] in ([val], [val.name]) and \
+                # the number itself or the same value as a Python number (val.tolist() / val.item())
+                vals_ = [s_.value for s_ in sg.fields()] if sg is not None else []
+                ok = sg is not None and (vals_ in ([val], [val.name]) or (
+                    len(vals_) == 1 and isinstance(vals_[0], Rat) and vals_[0].eq(I.D.sym('py<numpy_scalar>')))) and \
                     ''.join(s_.text for s_ in sg.segs if s_.kind == 'lit').strip().strip('"\'').strip() == 'cm3/s'
                 run.check(ok, 'DATAFLOW.unit', 'io.omkm.write_yaml', key,
                           'a NumPy number with unit template %r is written as %s, expected "<value> cm3/s" for the '
@@ -237,6 +260,7 @@ def reactor_yaml(run, repo):
             run.fail('DATAFLOW.reactor', 'io.omkm.write_yaml', label, 'raises %s / nothing dumped' % show(r), m, fn)
             continue
         data = I.dumps[-1]
+        check_yaml_plain(run, data, 'DATAFLOW.reactor', 'io.omkm.write_yaml', label + ' plain YAML data', m, fn)
         for k in subset:
             path, lab, unit = REACTOR_OPTS[k]
             cur = data
@@ -264,6 +288,13 @@ def reactor_yaml(run, repo):
                       % (label, k, show(vals[k], 40), '/'.join(path), lab, ' in ' + unit if unit else '',
                          show(got, 80)), m, fn, sample='write_yaml(%s=v) -> %s.%s' % (k, '/'.join(path), lab)
                       if len(subset) == 1 else None)
+            if isinstance(vals[k], Rat) and not zero and isinstance(got, (str, SegStr)):
+                lossy = lossy_fields(I.seg(got))
+                run.check(not lossy, 'DATAFLOW.reactor', 'io.omkm.write_yaml', 'option:' + k + ' digits kept',
+                          '[%s] option %s is printed as %s: an operating value has any magnitude in the unit system '
+                          'asked for (a volume of 2.5e-4 m3), its text must keep at least %d significant digits whatever '
+                          'the magnitude' % (label, k, ['%s as {:%s}' % (show(v_, 30), s_) for v_, s_ in lossy[:3]],
+                                             NEED_DIGITS), m, fn)
         if len(subset) == 1:
             # nothing else: every leaf of the data stems from the supplied option
             def leaves(x, pre=()):
@@ -368,6 +399,11 @@ def reactor_collections(run, repo):
             run.fail('DATAFLOW.reactor', 'io.omkm.write_yaml', label, 'raises %s / nothing dumped' % show(r), m, fn)
             continue
         data = I.dumps[-1]
+        if form == 'list' or 'D1' not in PENDING_DEFECTS:
+            # (series given as arrays reach the serialiser as lists of NumPy numbers on the unmodified tree:
+            # DEFECT3_C07.md D1 - not armed)
+            check_yaml_plain(run, data, 'DATAFLOW.reactor', 'io.omkm.write_yaml', 'series: plain YAML data [%s]' % label,
+                             m, fn)
         first = {'T': D.sym('Ts') if single else mT.items[0], 'P': D.sym('Ps') if single else mP.items[0],
                  'Q': D.sym('Qs') if single else mQ.items[0]}
         gT = at(data, 'reactor', 'temperature')
@@ -385,6 +421,12 @@ def reactor_collections(run, repo):
             all(quantity(I, a_, b_, 'bar') for a_, b_ in zip(gp.items, mP.items))
         ok2 = ok2 and isinstance(gq, ListV) and len(gq) == 3 and \
             all(quantity(I, a_, b_, 'cm3/s') for a_, b_ in zip(gq.items, mQ.items))
+        lossy = [x_ for e_ in ((gp.items if isinstance(gp, ListV) else []) + (gq.items if isinstance(gq, ListV) else []))
+                 if isinstance(e_, (str, SegStr)) for x_ in lossy_fields(I.seg(e_))]
+        run.check(not lossy, 'DATAFLOW.reactor', 'io.omkm.write_yaml', 'series: digits kept [%s]' % label,
+                  '[%s] the entries of a series are printed as %s: their text must keep at least %d significant digits '
+                  'whatever the magnitude' % (label, ['%s as {:%s}' % (show(v_, 30), s_) for v_, s_ in lossy[:3]],
+                                              NEED_DIGITS), m, fn)
         run.check(ok2, 'DATAFLOW.reactor', 'io.omkm.write_yaml', 'series: multi_input [%s]' % label,
                   '[%s] simulation/multi_input must list every temperature, every pressure in bar and every flow rate '
                   'in cm3/s, in order: got %s / %s / %s' % (label, show(gt, 80), show(gp, 120), show(gq, 120)), m, fn,
@@ -441,6 +483,8 @@ def reactor_collections(run, repo):
     r = I.call_function(m, fn, [], {'units': u, 'phases': DictV(), 'reactions_SA': ListV(['r_0001', rx_o]),
                                     'species_SA': ListV([sp_o, 'H2'])})
     data = I.dumps[-1] if I.dumps and not isinstance(r, Raised) else None
+    if data is not None:
+        check_yaml_plain(run, data, 'DATAFLOW.reactor', 'io.omkm.write_yaml', 'sensitivity lists: plain YAML data', m, fn)
     sens = at(data, 'simulation', 'sensitivity') if data is not None else None
     okr = isinstance(sens, DictV) and isinstance(sens.d.get('reactions'), ListV) and \
         [I.plain(x) for x in sens.d['reactions'].items] == ['r_0001', 'r_0002']
@@ -475,6 +519,9 @@ def reactor_collections(run, repo):
             I.dumps.clear()
             r = I.call_function(m, fn, [], {'units': units_obj(I, repo), 'phases': ListV(subset)})
             ph = at(I.dumps[-1], 'phases') if I.dumps and not isinstance(r, Raised) else None
+            if ph is not None:
+                check_yaml_plain(run, I.dumps[-1], 'DATAFLOW.reactor', 'io.omkm.write_yaml',
+                                 'phases as objects: plain YAML data [%s, %s]' % (lab, gas_q.split('.')[1]), m, fn)
             ok = isinstance(ph, DictV)
             why = 'phases section is %s' % show(ph if ph is not None else r, 200)
             if ok:
@@ -546,6 +593,85 @@ def reactor_collections(run, repo):
               'Pa and m3/min: got %s' % (show(data, 200) if data is not None else show(r)), m, fn)
 
 
+def data_equal(I, a, b):
+    """two pieces of YAML data say the same: the same keys (in any order), the same entries in order, equal numbers, the
+    same text"""
+    if isinstance(a, DictV) or isinstance(b, DictV):
+        return isinstance(a, DictV) and isinstance(b, DictV) and set(a.d) == set(b.d) and \
+            all(data_equal(I, a.d[k_], b.d[k_]) for k_ in a.d)
+    if isinstance(a, ListV) or isinstance(b, ListV):
+        return isinstance(a, ListV) and isinstance(b, ListV) and len(a) == len(b) and \
+            all(data_equal(I, x_, y_) for x_, y_ in zip(a.items, b.items))
+    if isinstance(a, Rat) or isinstance(b, Rat):
+        return isinstance(a, Rat) and isinstance(b, Rat) and a.eq(b)
+    if isinstance(a, (str, SegStr)) and isinstance(b, (str, SegStr)):
+        return seg_equal(I, a, b)
+    return a is b or (type(a) is type(b) and a == b)
+
+
+def owned_dicts():
+    """the dictionaries of write_yaml a caller may own.  Armed: misc (documented: its entries go to the top level of
+    the file).  The five section dictionaries are written into by the unmodified tree (DEFECT3_C07.md D2): they are
+    armed once D2 is taken out of PENDING_DEFECTS"""
+    return ('misc',) if 'D2' in PENDING_DEFECTS else ('misc', 'reactor', 'inlet_gas', 'simulation', 'solver',
+                                                      'multi_input')
+
+
+def reactor_history(run, repo):
+    """histories at the level of the writer: dictionaries the caller owns are handed to two calls of write_yaml that
+    describe two different reactors.  The second file says what a first call with these arguments says (nothing of the
+    first reactor survives), and each dictionary holds after every call what the caller put into it"""
+    m = repo.module(OM)
+    fn = m.functions['write_yaml']
+    syms = ('V1', 'T1', 'P1', 'Q1', 'E1', 'V2', 'T2', 'c_misc', 'c_reactor', 'c_inlet_gas', 'c_simulation', 'c_solver',
+            'c_multi_input', 'a1', 'M0', 'M1')
+    order = lambda: RankOrder({k_: 1 for k_ in syms}, const_ranks=True)
+
+    def content(name, D):
+        # what the caller put into the dictionary: an entry of his own
+        return {'custom_' + name: D.sym('c_' + name)}
+
+    def calls(I, owned):
+        D = I.D
+        first = {'reactor_type': 'cstr', 'V': D.sym('V1'), 'T': D.sym('T1'), 'P': D.sym('P1'), 'flow_rate': D.sym('Q1'),
+                 'end_time': D.sym('E1'), 'atol': D.sym('a1'), 'multi_T': ListV([D.sym('M0'), D.sym('M1')]),
+                 'transient': True}
+        second = {'reactor_type': 'batch', 'V': D.sym('V2'), 'T': D.sym('T2')}
+        return first, second
+    OWNED_DICTS = owned_dicts()
+    for owned in [(k_,) for k_ in OWNED_DICTS] + ([tuple(OWNED_DICTS)] if len(OWNED_DICTS) > 1 else []):
+        I = new_interp(repo, order=order())
+        u = units_obj(I, repo)
+        mine = {k_: DictV(content(k_, I.D)) for k_ in owned}
+        first, second = calls(I, owned)
+        label = 'the same %s handed to two calls' % ' / '.join(owned)
+        r1 = I.call_function(m, fn, [], dict(first, units=u, phases=DictV(), **mine))
+        kept1 = {k_: set(v_.d) == set(content(k_, I.D)) for k_, v_ in mine.items()}
+        r2 = I.call_function(m, fn, [], dict(second, units=u, phases=DictV(), **mine))
+        kept2 = {k_: set(v_.d) == set(content(k_, I.D)) for k_, v_ in mine.items()}
+        # reference: the second call as the first call of a session
+        J = new_interp(repo, order=order())
+        fresh = {k_: DictV(content(k_, J.D)) for k_ in owned}
+        r0 = J.call_function(m, fn, [], dict(calls(J, owned)[1], units=units_obj(J, repo), phases=DictV(), **fresh))
+        if any(isinstance(x_, Raised) for x_ in (r0, r1, r2)) or len(I.dumps) != 2 or len(J.dumps) != 1:
+            run.fail('DATAFLOW.history', 'io.omkm.write_yaml', label, 'the calls give %s, %s; the reference call %s'
+                     % (show(r1, 40), show(r2, 40), show(r0, 40)), m, fn)
+            continue
+        run.check(data_equal(I, I.dumps[1], J.dumps[0]), 'DATAFLOW.history', 'io.omkm.write_yaml',
+                  'second file [%s]' % label,
+                  '[%s] write_yaml(reactor_type=cstr, V1, T1, P1, flow_rate, end_time, atol, multi_T, ...) followed by '
+                  'write_yaml(reactor_type=batch, V2, T2, ...): the second file holds %s; the same call as the first of a '
+                  'session gives %s - the file of a reactor carries the values supplied for it and nothing else'
+                  % (label, show(I.dumps[1], 300), show(J.dumps[0], 300)), m, fn,
+                  sample='write_yaml twice with %s: second file == file of a fresh call' % label)
+        for nth, kept in ((1, kept1), (2, kept2)):
+            bad = sorted(k_ for k_, ok_ in kept.items() if not ok_)
+            run.check(not bad, 'EFFECT.caller-dict', 'io.omkm.write_yaml', 'after call %d [%s]' % (nth, label),
+                      '[%s] after call %d the caller\'s %s hold(s) %s: a dictionary handed to the writer holds afterwards '
+                      'what the caller put into it' % (label, nth, ' / '.join(bad),
+                                                       {k_: sorted(map(str, mine[k_].d)) for k_ in bad}), m, fn)
+
+
 # ----------------------------------------------------------------------
 def marker_obj(I, oname, **attrs):
     """object whose to_cti / to_omkm_yaml return a marker naming the object and the id it has at that moment"""
@@ -615,6 +741,11 @@ def file_assembly(run, repo):
                 run.fail('DATAFLOW.assembly', 'io.omkm.' + writer, label, 'raises %s' % out.exc, m,
                          out.node if hasattr(out.node, 'lineno') else fn)
                 continue
+            if writer == 'write_cti':
+                # the assembled file (the entries of the objects stand for themselves) is a sequence of directives
+                check_cti_directives(run, repo, I, out, 'DATAFLOW.assembly', 'io.omkm.write_cti',
+                                     'valid directives' + (' (user id present)' if user_ids else '') + ksuf, m, fn,
+                                     is_directive=lambda v_: isinstance(v_, str) and v_.startswith('cti:'))
             ids = [r.attrs.get('id') for r in rx]
             run.check(all(isinstance(x, str) for x in ids) and len(set(ids)) == len(ids), 'DATAFLOW.ids',
                       'io.omkm.' + writer, 'reaction ids' + (' (user id present)' if user_ids else '') + ksuf,
@@ -680,6 +811,10 @@ def file_assembly(run, repo):
                           % (writer, mw_, 'directive missing or inverted' if writer == 'write_cti'
                              else 'reactions emitted with %s' % seen_mw), m, fn)
             if writer == 'write_thermo_yaml':
+                for d_ in I.dumps:
+                    check_yaml_plain(run, d_, 'DATAFLOW.assembly', 'io.omkm.write_thermo_yaml',
+                                     'plain YAML data: section %s' % (list(d_.d)[:1] if isinstance(d_, DictV) else '?'),
+                                     m, fn)
                 fields = [list(d_.d.keys())[0] for d_ in I.dumps if isinstance(d_, DictV)]
                 run.check(sorted(fields) == sorted(['units', 'phases', 'species', 'reactions', 'beps', 'interactions']),
                           'TABLE.sections', 'io.omkm.write_thermo_yaml', 'sections',
@@ -734,6 +869,15 @@ def file_assembly(run, repo):
                 run.fail('DATAFLOW.members', 'io.omkm.' + writer, label, 'raises %s' % out.exc, m,
                          out.node if hasattr(out.node, 'lineno') else fn)
                 continue
+            if writer == 'write_cti':
+                check_cti_directives(run, repo, I, out, 'DATAFLOW.assembly', 'io.omkm.write_cti',
+                                     'valid directives, real interface and BEP relations' + ksuf, m, fn,
+                                     is_directive=lambda v_: isinstance(v_, str) and v_.startswith('cti:'))
+            else:
+                for d_ in I.dumps:
+                    check_yaml_plain(run, d_, 'DATAFLOW.assembly', 'io.omkm.write_thermo_yaml',
+                                     'plain YAML data, real interface and BEP relations: section %s%s'
+                                     % (list(d_.d)[:1] if isinstance(d_, DictV) else '?', ksuf), m, fn)
             rx_ids = {r_.attrs.get('id') for r_ in rx}
             li_ids = {x_.attrs.get('name') for x_ in li}
             bnames = [get_public(I, b_, 'name') for b_, _d, _m in real]
@@ -875,6 +1019,61 @@ def file_assembly(run, repo):
                   '%s() with everything omitted raises %s' % (writer, out.exc if isinstance(out, Raised) else ''), m, fn)
 
 
+def writer_history(run, repo):
+    """the ordinary session: one model written as CTI, then as thermo YAML, then as CTI again (same objects, same
+    interpreter).  The ids handed out by the first call are the ids of every later file, every object is emitted once
+    per file, and the third file is the first one"""
+    m = repo.module(OM)
+    I = new_interp(repo)
+    rx = [marker_obj(I, 'rxn%d' % i, id=('user_1' if i == 1 else None), bep=None) for i in range(4)]
+    beps = [marker_obj(I, 'bep%d' % i, name=None) for i in range(2)]
+    rx[0].attrs['bep'] = beps[0]
+    rx[2].attrs['bep'] = beps[0]
+    rx[3].attrs['bep'] = beps[1]
+    li = [marker_obj(I, 'int%d' % i, name=None) for i in range(2)]
+    sp = [marker_obj(I, 'sp%d' % i, name='n%d' % i) for i in range(2)]
+    ph = marker_obj(I, 'phase0', name='p0')
+    objs = rx + beps + li + sp + [ph]
+
+    def model():
+        # fresh containers for every call, the same objects in them
+        return {'phases': ListV([ph]), 'species': ListV(list(sp)), 'reactions': ListV(list(rx)),
+                'lateral_interactions': ListV(list(li)), 'units': units_obj(I, repo)}
+
+    def names():
+        return [o_.attrs.get('id', o_.attrs.get('name')) for o_ in objs]
+    texts, ids = [], []
+    for nth, writer in enumerate(('write_cti', 'write_thermo_yaml', 'write_cti')):
+        fn = m.functions.get(writer)
+        if fn is None:
+            raise AnchorError('%s.%s not found' % (OM, writer))
+        for o_ in objs:
+            del o_.calls[:]
+        out = I.call_function(m, fn, [], dict(model(), **({'write_xml': False} if writer == 'write_cti' else {})))
+        label = 'call %d (%s) of the session write_cti, write_thermo_yaml, write_cti' % (nth + 1, writer)
+        if isinstance(out, Raised):
+            run.fail('DATAFLOW.history', 'io.omkm.' + writer, label, 'raises %s' % out.exc, m, fn)
+            return
+        texts.append(out)
+        ids.append(names())
+        run.check(rx[1].attrs.get('id') == 'user_1', 'DATAFLOW.history', 'io.omkm.' + writer, 'user id kept, ' + label,
+                  '[%s] the reaction the user called user_1 is called %s after writing: an id given by the user is the id '
+                  'of the reaction' % (label, show(rx[1].attrs.get('id'), 30)), m, fn)
+        kind = 'cti' if writer == 'write_cti' else 'yaml'
+        bad = [o_.name for o_ in objs if [c_[0] for c_ in o_.calls].count(kind) != 1]
+        run.check(not bad, 'DATAFLOW.history', 'io.omkm.' + writer, 'everything once, ' + label,
+                  '[%s] not emitted exactly once: %s' % (label, bad), m, fn)
+        run.check(all(isinstance(x_, str) for x_ in ids[-1]) and len(set(ids[-1])) == len(ids[-1]) and ids[-1] == ids[0],
+                  'DATAFLOW.history', 'io.omkm.' + writer, 'ids kept, ' + label,
+                  '[%s] the objects are called %s; the first file of the session called them %s: an id handed out '
+                  'once is the id of the object in every later file' % (label, ids[-1], ids[0]), m, fn,
+                  sample='session write_cti, write_thermo_yaml, write_cti: ids of call %d == ids of call 1' % (nth + 1))
+    fn = m.functions['write_cti']
+    run.check(seg_equal(I, texts[0], texts[2]), 'DATAFLOW.history', 'io.omkm.write_cti', 'same model, same file',
+              'write_cti for the same model before and after write_thermo_yaml gives two different texts: %s ... / %s ...'
+              % (show(texts[0], 160), show(texts[2], 160)), m, fn)
+
+
 # ----------------------------------------------------------------------
 def files_on_disk(run, repo):
     """a writer called with filename= puts on disk exactly the text it returns when no file name is given (that text is
@@ -930,6 +1129,45 @@ def files_on_disk(run, repo):
                   'without a file name has %d: the file on disk must be that text. File begins %s'
                   % (writer, fname, len(files), n1, n0, show(on_disk, 200)), m, fn,
                   sample='%s(filename=...) -> file == text returned for filename=None' % writer)
+
+
+# ----------------------------------------------------------------------
+def quoted_scalars(run, repo):
+    """what the YAML writers do to the serialiser's text after it is assembled.  PyYAML puts single quotes around a
+    scalar that would read as something else without them (NO, yes, on, null, 1e3 - YAML 1.1 booleans, nulls, numbers -
+    or a text with ': ' or ' #'): those quotes are part of the file.  The single quotes it puts around the quantities
+    (texts that carry their own double quotes: '"2.5 mol/cm^2"') are what the writers remove.
+    NOT armed while D3 is pending: the unmodified tree removes every single quote (DEFECT3_C07.md D3)."""
+    m = repo.module(OM)
+    for writer, kw in (('write_thermo_yaml', {}), ('write_yaml', {'phases': DictV(), 'reactor_type': 'cstr'})):
+        fn = m.functions.get(writer)
+        if fn is None:
+            raise AnchorError('%s.%s not found' % (OM, writer))
+        I = new_interp(repo)
+
+        def dump(I_, fr, args, kwargs, n):
+            I_.dumps.append(kwargs.get('data', args[0] if args else None))
+            return "species: ['NO', N2, 'ON']\nname: 'NO'\nsite-density: '\"2.5 mol/cm^2\"'\n"
+        I.native['yaml.dump'] = dump
+        out = I.call_function(m, fn, [], dict(kw, units=units_obj(I, repo)))
+        txt = I.seg(out).literal() if isinstance(out, (str, SegStr)) and I.seg(out).is_literal() else None
+        if txt is None:
+            run.fail('DATAFLOW.quotes', 'io.omkm.' + writer, 'quoted scalars', 'the writer gives %s' % show(out, 120),
+                     m, fn)
+            continue
+        if 'D3' in PENDING_DEFECTS:
+            run.note('%s: "quoted scalars" is not armed (every single quote of the serialiser\'s text is removed: '
+                     'DEFECT3_C07.md D3)' % writer, m, fn)
+            continue
+        run.check("species: ['NO', N2, 'ON']" in txt and "name: 'NO'" in txt, 'DATAFLOW.quotes', 'io.omkm.' + writer,
+                  'quoted scalars',
+                  '%s: the serialiser wrote species: [\'NO\', N2, \'ON\'] and name: \'NO\' (quoted: the bare words are '
+                  'YAML booleans); the file says %r - a species called NO reads back as False' % (
+                      writer, [l_ for l_ in txt.splitlines() if l_.startswith(('species', 'name'))]), m, fn,
+                  sample='%s: quotes the serialiser needs are kept' % writer)
+        run.check('site-density: "2.5 mol/cm^2"' in txt, 'DATAFLOW.quotes', 'io.omkm.' + writer, 'quantities',
+                  '%s: a quantity the serialiser wrote as \'"2.5 mol/cm^2"\' must appear as "2.5 mol/cm^2"; the file '
+                  'says %r' % (writer, [l_ for l_ in txt.splitlines() if l_.startswith('site-density')]), m, fn)
 
 
 # ----------------------------------------------------------------------
@@ -1229,13 +1467,36 @@ def check(run, repo):
         'reaction without a bep attribute, and with a real interface and a real BEP relation around marker reactions: '
         'the ids named by the range notation of the interface and of the relation are the ids the writer handed '
         'out; every writer called with filename= leaves on disk exactly the text it returns without a file name '
-        '(serialiser text with quotes and list items, so that the post-processing is part of the comparison).')
+        '(serialiser text with quotes and list items, so that the post-processing is part of the comparison). Added '
+        'after the third white-box review: reactions with a pre-exponential factor given by the user (written as it '
+        'is in every unit system, with two and three sites, with a transition state, as adsorption step); in the CTI '
+        'phase entries every species name stands under species= and every element under elements= (3 and 17 '
+        'species); an interface whose reactions have no BEP relation writes no beps= keyword; the "<value> <unit>" '
+        'texts of both YAML files (site density, Ea, intercept, strengths, every reactor option, series) keep at '
+        'least six significant digits whatever the magnitude; a history at the level of the writer: the misc '
+        'dictionary of the caller handed to two calls of write_yaml for two different reactors - the second file is '
+        'the file of a fresh call, the dictionary holds what the caller put into it; every YAML entry of every '
+        'emitter and the data the writers hand to the serialiser are made of dictionaries, lists, text, booleans '
+        'and plain numbers only (no tuple, array, list of NumPy scalars, object: those are written with '
+        'python-specific tags no safe loader reads); every CTI text of every emitter and the assembled CTI file, its '
+        'fields spelled with samples, parses as a sequence of calls of directives that pmutt/io/ctml_writer.py '
+        'defines, by keywords the directive has, with literal arguments; pathlib.Path.open on the path stub is the '
+        'open() model. Written but not armed (genuine defects of the unmodified tree, DEFECT3_C07.md, switch '
+        'PENDING_DEFECTS in c07b.py): NumPy numbers for unit-less reactor options (D1), the five section '
+        'dictionaries of write_yaml in the history instance (D2), quotes the serialiser needs (D3), the CTI entry of '
+        'a NASA-9 species (D4).')
     run.assumptions = ['yaml.dump is an uninterpreted serialiser that receives the data checked here',
                        'pathlib.Path of a concrete file name behaves lexically like PurePosixPath; its file-system '
                        'methods are outside the fragment (refused)',
                        'Python evaluates default argument values once (modelled: defaults are shared between calls)']
-    run.undecided = ['that the YAML loads and the CTI parses (PyYAML / Cantera behaviour, quote stripping by '
-                     'str.replace)', 'uniqueness of ids when user ids collide with automatic ones',
+    run.undecided = ['that the YAML loads beyond "the data is plain" (PyYAML quoting, quote stripping by str.replace: '
+                     'DEFECT3_C07.md D3); that Cantera accepts the CTI beyond "a sequence of known directives with '
+                     'known keywords and literal arguments" (argument types, number of coefficients of a thermo '
+                     'directive)',
+                     'the Python type of a number that reaches the serialiser or a formatted list (NumPy scalar or '
+                     'Python number) beyond what the interpreter marks: list(arr) and the text of containers are '
+                     'requested in REQ3_C07.md (whitebox3 A3, A4)',
+                     'uniqueness of ids when user ids collide with automatic ones',
                      '_filter_reactions semantics',
                      'the XML file write_cti derives from the CTI file (write_xml=True: Cantera\'s ctml_writer)',
                      'line-end translation of files on disk (newline= is handed to open() as given)',
@@ -1248,14 +1509,17 @@ def check(run, repo):
     assign_yaml(run, repo)
     reactor_yaml(run, repo)
     reactor_collections(run, repo)
+    reactor_history(run, repo)
     file_assembly(run, repo)
+    writer_history(run, repo)
     files_on_disk(run, repo)
+    quoted_scalars(run, repo)
     units_header(run, repo)
     phases_independent(run, repo)
     organize(run, repo)
     from .c07b import emitters
     emitters(run, repo)
-    run.floor('C07 obligations', run.obligations, 800)
+    run.floor('C07 obligations', run.obligations, 1300)
 
 
 O_ = 'pmutt/io/omkm.py'
@@ -1402,6 +1666,39 @@ MUTANTS = [
      'edits': [(O_, "                    # Assign BEP name if not present so phases can refer to it\n                    if bep.name is None:\n                        bep.name = 'b_{:04d}'.format(j)\n                        j += 1\n", "", 0, 2)]},
     {'name': 'thermo YAML names the BEP relations only after the phases are written', 'expect': ('ORDER.ids-before-phases', 'write_thermo_yaml'),
      'edits': [(O_, "                    # Assign BEP name if not present so phases can refer to it\n                    if bep.name is None:\n                        bep.name = 'b_{:04d}'.format(j)\n                        j += 1\n", "", 1, 2)]},
+    # instances added after the third white-box review (whitebox3/C07.md)
+    {'name': 'A1: a pre-exponential factor given by the user is rescaled by the area unit', 'expect': ('DATAFLOW.reaction', 'SurfaceReaction.to_'),
+     'edits': [(R_, "        else:\n            A = self.A\n        return A", "        else:\n            A = self.A / c.convert_unit(initial='cm2', final=units.split('/')[1])\n        return A")]},
+    {'name': 'A2: write_yaml fills the misc dictionary of the caller', 'expect': ('DATAFLOW.history', 'write_yaml'),
+     'edits': [(O_, "    yaml_dict = misc.copy()", "    yaml_dict = misc")]},
+    {'name': 'A3 (container): NASA temperature ranges handed to the serialiser as a tuple', 'expect': ('SLOT.yaml', 'Nasa.to_omkm_yaml'),
+     'edits': [('pmutt/empirical/nasa.py', "                       'temperature-ranges': [float(self.T_low),\n                                              float(self.T_mid),\n                                              float(self.T_high)],", "                       'temperature-ranges': (float(self.T_low),\n                                              float(self.T_mid),\n                                              float(self.T_high)),")]},
+    {'name': 'A3 (container): NASA coefficients handed to the serialiser as arrays', 'expect': ('SLOT.yaml', 'Nasa.to_omkm_yaml'),
+     'edits': [('pmutt/empirical/nasa.py', "                       'data': [self.a_low.tolist(),\n                                self.a_high.tolist()]}", "                       'data': [self.a_low, self.a_high]}")]},
+    {'name': 'A3 (container): species names of a phase handed to the serialiser as a tuple', 'expect': ('DATAFLOW.phase', '.to_omkm_yaml'),
+     'edits': [('pmutt/omkm/phase.py', "            'species': species_names,\n            'kinetics': 'surface',", "            'species': tuple(species_names),\n            'kinetics': 'surface',")]},
+    {'name': 'A4 (validity): lateral interaction id written without quotes', 'expect': ('DATAFLOW.interaction', 'PiecewiseCovEffect.to_cti'),
+     'edits': [('pmutt/mixture/cov.py', "                         '                    id=\"{}\")'", "                         '                    id={})'")]},
+    {'name': 'A4 (validity): Shomate entry does not close its species directive', 'expect': ('SLOT.cti', 'Shomate.to_cti'),
+     'edits': [('pmutt/empirical/shomate.py', "                   '                        {: 2.8E}]))').format(", "                   '                        {: 2.8E}])').format(")]},
+    {'name': 'A4 (validity): bulk phase entry uses a keyword the directive does not have', 'expect': ('DATAFLOW.phase', 'StoichSolid.to_cti'),
+     'edits': [('pmutt/cantera/phase.py', "                   '                     density={},\\n'.format(", "                   '                     rho={},\\n'.format(")]},
+    {'name': 'A5: gas phase entry lists the species under elements= and the elements under species=', 'expect': ('DATAFLOW.phase', 'IdealGas.to_cti'),
+     'edits': [('pmutt/cantera/phase.py', "        cti_str = ('ideal_gas(name={},\\n'\n                   '          elements={},\\n'\n                   '          species={},\\n'.format(", "        cti_str = ('ideal_gas(name={},\\n'\n                   '          species={},\\n'\n                   '          elements={},\\n'.format(")]},
+    {'name': 'A5: interface entry hands the species names to elements= and the elements to species=', 'expect': ('DATAFLOW.phase', 'InteractingInterface.to_cti'),
+     'edits': [('pmutt/omkm/phase.py', "                       phase_cantera.obj_to_cti(self.elements,\n                                                line_len=max_line_len - 31,\n                                                max_line_len=max_line_len),\n                       phase_cantera.obj_to_cti(species_names,", "                       phase_cantera.obj_to_cti(species_names,\n                                                line_len=max_line_len - 31,\n                                                max_line_len=max_line_len),\n                       phase_cantera.obj_to_cti(self.elements,")]},
+    {'name': 'history: CTI renumbers every reaction, also those with an id', 'expect': ('DATAFLOW.history', 'write_cti'),
+     'edits': [(O_, "            if reaction.id is None:\n                reaction.id = 'r_{:04d}'.format(i)", "            if True:\n                reaction.id = 'r_{:04d}'.format(i)", 0, 2)]},
+    {'name': 'history: thermo YAML renumbers every reaction, also those with an id', 'expect': ('DATAFLOW.history', 'write_thermo_yaml'),
+     'edits': [(O_, "            if reaction.id is None:\n                reaction.id = 'r_{:04d}'.format(i)", "            if True:\n                reaction.id = 'r_{:04d}'.format(i)", 1, 2)]},
+    {'name': 'history: thermo YAML names the BEP relations again', 'expect': ('DATAFLOW.history', 'write_thermo_yaml'),
+     'edits': [(O_, "                    if bep.name is None:\n                        bep.name = 'b_{:04d}'.format(j)", "                    if True:\n                        bep.name = 'bep_{:04d}'.format(j)", 1, 2)]},
+    {'name': 'x1: quantities of the YAML files printed with three decimals', 'expect': ('DIM.site-density', 'InteractingInterface.to_omkm_yaml'),
+     'edits': [('pmutt/omkm/__init__.py', "        val_str = '\\\"{} {}\\\"'.format(param.val, param.units)", "        val_str = '\\\"{:.3f} {}\\\"'.format(param.val, param.units)")]},
+    {'name': 'x1: entries of a series printed with three decimals', 'expect': ('DIM.strength', 'PiecewiseCovEffect.to_omkm_yaml'),
+     'edits': [('pmutt/omkm/__init__.py', "            val_str = '\\\"{} {}\\\"'.format(val, param.units)", "            val_str = '\\\"{:.3f} {}\\\"'.format(val, param.units)")]},
+    {'name': 'x2: interface entry writes beps= for an empty list of relations', 'expect': ('DATAFLOW.phase', 'InteractingInterface.to_cti'),
+     'edits': [('pmutt/omkm/phase.py', "            # Skip blank lists\n            if len(val) == 0:\n                continue\n", "")]},
 ]
 # rewrites that leave every written file as it is: the instances added after the second review must stay silent
 EQUIV = [
@@ -1416,6 +1713,20 @@ EQUIV = [
                (O_, "            for bep in beps:\n                bep_CTI", "            for bep in beps.values():\n                bep_CTI")]},
     {'name': 'rate parameters in the general presentation with six digits',
      'edits': [(R_, "                       '                 [{: .5e}, {}, {: .5e}]{})'", "                       '                 [{:.6g}, {}, {:.6g}]{})'")]},
+    # rewrites that must stay silent under the instances added after the third review
+    {'name': 'B3: thermo writers open the file through the path object',
+     'edits': [(O_, "        filename = Path(filename)\n        with open(filename, 'w', newline=newline) as f_ptr:", "        filename = Path(filename)\n        with filename.open('w', newline=newline) as f_ptr:", 0, 2),
+               (O_, "        filename = Path(filename)\n        with open(filename, 'w', newline=newline) as f_ptr:", "        filename = Path(filename)\n        with filename.open('w', newline=newline) as f_ptr:")]},
+    {'name': 'gas phase entry with species= before elements=, arguments moved along',
+     'edits': [('pmutt/cantera/phase.py', "        cti_str = ('ideal_gas(name={},\\n'\n                   '          elements={},\\n'\n                   '          species={},\\n'.format(", "        cti_str = ('ideal_gas(name={0},\\n'\n                   '          species={2},\\n'\n                   '          elements={1},\\n'.format(")]},
+    {'name': 'write_yaml copies the misc dictionary with dict()',
+     'edits': [(O_, "    yaml_dict = misc.copy()", "    yaml_dict = dict(misc)")]},
+    {'name': 'user-given pre-exponential factor returned early',
+     'edits': [(R_, "        if self.A is None:\n            if self.transition_state is None or not include_entropy:", "        if self.A is not None:\n            return self.A\n        if self.A is None:\n            if self.transition_state is None or not include_entropy:")]},
+    {'name': 'quantities of the YAML files printed with repr precision',
+     'edits': [('pmutt/omkm/__init__.py', "        val_str = '\\\"{} {}\\\"'.format(param.val, param.units)", "        val_str = '\\\"{!r} {}\\\"'.format(param.val, param.units)")]},
+    {'name': 'NASA coefficients as nested tolist of the stacked arrays',
+     'edits': [('pmutt/empirical/nasa.py', "                       'data': [self.a_low.tolist(),\n                                self.a_high.tolist()]}", "                       'data': np.array([self.a_low, self.a_high]).tolist()}")]},
     {'name': 'coefficients of the equation with three decimals',
      'edits': [(R_, "        yaml_dict['equation'] = self.to_string(stoich_space=True,", "        yaml_dict['equation'] = self.to_string(stoich_space=True, stoich_format='.3f',")]},
 ]
